@@ -8,7 +8,7 @@ from .. import algebra as A
 from ..abseval import (Cond, Const, Ctx, DictVal, EnumVal, Evaluator, Inst, Raised, Scalar, State, S, SymObj, Undecided,
                        cond_leaves)
 from ..check import Variant
-from ..loader import AnalysisError, ClassInfo, Func, Program, dotted, norm
+from ..loader import AnalysisError, ClassInfo, Func, Program, dotted, find_func_for_node, norm
 from . import common as C
 
 ID = 'C13'
@@ -151,6 +151,36 @@ def run(prog: Program, rep, thorough: bool) -> None:
                  f'attribute hooks or setters on a quantity class: {bad_hooks}')
     else:
         rep.ok('C13.R1', f'{umod.path}:{base.node.lineno}', 'no setter, __setattr__, __setstate__ in the quantity classes')
+    # re-initialisation: `q.__init__(value, units)` on an existing quantity runs the constructor's store again
+    dim_names = {c.name for c in hierarchy}
+    n_reinit = 0
+    for mod in prog.modules.values():
+        for call in ast.walk(mod.tree):
+            if not (isinstance(call, ast.Call) and isinstance(call.func, ast.Attribute) and call.func.attr == '__init__'):
+                continue
+            recv = call.func.value
+            if isinstance(recv, ast.Call) and (dotted(recv.func) or '') == 'super':
+                continue
+            fn = find_func_for_node(prog, mod, call)
+            if isinstance(recv, ast.Name) and prog.resolve_class(mod, recv.id) is not None and call.args \
+                    and isinstance(call.args[0], ast.Name) and fn is not None and fn.positional[:1] == [call.args[0].id]:
+                continue        # Base.__init__(self, ...): chaining inside a constructor
+            tested = fn is not None and any(
+                isinstance(t, ast.Call) and (dotted(t.func) or '') == 'isinstance' and len(t.args) == 2
+                and norm(t.args[0]) == norm(recv)
+                and any(isinstance(x, ast.Name) and x.id in dim_names for x in ast.walk(t.args[1]))
+                for t in ast.walk(fn.node))
+            n_reinit += 1
+            if tested:
+                rep.fail('C13.R1', mod.path, call.lineno, fn.qualname, f'reinit:{norm(recv)[:30]}',
+                         f'`{norm(call)[:70]}` runs the constructor again on an existing quantity (the function tests it with '
+                         f'isinstance against a quantity class): its magnitude is rewritten after construction, and every holder of '
+                         f'that object sees another value')
+            else:
+                rep.undecided('C13.R1', mod.where(call), f'`{norm(call)[:60]}`', 'an explicit __init__ call on an object whose class '
+                              'the rule does not know: a magnitude rewrite if it is a quantity')
+    if not n_reinit:
+        rep.ok('C13.R1', f'{umod.path}:{base.node.lineno}', 'no explicit __init__ call on an existing object in the package')
     # convert evaluated: magnitude untouched, display unit replaced, same object returned
     ev = Evaluator(prog, hooks={'inst_dict': lambda ev_, inst, st: DictVal({})})
     conv = prog.find_method(base, 'convert')
